@@ -1195,6 +1195,7 @@ enum Consumer {
 }
 enum ChainSrc {
     Iter(syn::Expr),  // X.iter()
+    IterMut(syn::Expr), // X.iter_mut()  (R3m: only `find`, the search reads and the found element is re-borrowed mutably)
     Other(syn::Expr),
 }
 
@@ -1253,6 +1254,10 @@ fn parse_adapters(e: &syn::Expr) -> Option<(ChainSrc, Vec<Adapter>)> {
                         adapters.reverse();
                         return Some((ChainSrc::Iter((*mc.receiver).clone()), adapters));
                     }
+                    ("iter_mut", 0) => {
+                        adapters.reverse();
+                        return Some((ChainSrc::IterMut((*mc.receiver).clone()), adapters));
+                    }
                     _ => None,
                 }
             }
@@ -1305,6 +1310,45 @@ impl<'a> LoopPass<'a> {
         let marker = loop_marker(k);
         let (seq_init, by_ref): (TokenStream, bool) = match &src {
             ChainSrc::Iter(x) => (quote!(&#x), mode != "val"),
+            ChainSrc::IterMut(x) => {
+                // R3m: X.iter_mut()[.enumerate()].find(pred): the search loop reads X through a shared borrow and remembers the
+                // index; the result re-borrows the found element mutably: Some((ix, &mut X[ix])) / Some(&mut X[ix])
+                let pred = match &consumer {
+                    Consumer::Find(c) => c.clone(),
+                    _ => return Err("unsupported construct: iter_mut() consumed by something else than find".into()),
+                };
+                let enumerated = match adapters.as_slice() {
+                    [] => false,
+                    [Adapter::Enumerate] => true,
+                    _ => return Err("unsupported construct: adapters between iter_mut() and find other than enumerate".into()),
+                };
+                if has_return(&pred.body) || pred.inputs.len() != 1 {
+                    return Err("unsupported construct: find closure over iter_mut()".into());
+                }
+                let pat = match &pred.inputs[0] { syn::Pat::Type(pt) => (*pt.pat).clone(), p => p.clone() };
+                let mut b = (*pred.body).clone();
+                self.closures += 1;
+                self.closure_params.push(pred.inputs.to_token_stream().to_string());
+                self.visit_expr_mut(&mut b);
+                let r_id = syn::Ident::new(&format!("__found{}", k), Span::call_site());
+                let ix_id = syn::Ident::new(&format!("__ix{}", k), Span::call_site());
+                let item: TokenStream = if enumerated { quote!((#i_id - 1, &#s_id[#i_id - 1])) } else { quote!(&#s_id[#i_id - 1]) };
+                let found_item: TokenStream = if enumerated { quote!((#ix_id, &mut #x[#ix_id])) } else { quote!(&mut #x[#ix_id]) };
+                bump(self.counts, "R3m.iter_mut_find");
+                return Ok(syn::parse_quote!({
+                    let mut #r_id: Option<usize> = None;
+                    {
+                        let #s_id = &#x;
+                        let mut #i_id: usize = 0;
+                        while #i_id < #s_id.len() && #r_id.is_none() {
+                            #marker
+                            #i_id = #i_id + 1;
+                            if { let #pat = &#item; #b } { #r_id = Some(#i_id - 1); }
+                        }
+                    }
+                    match #r_id { Some(#ix_id) => Some(#found_item), None => None }
+                }));
+            }
             ChainSrc::Other(x) => {
                 let mut x2 = x.clone();
                 self.visit_expr_mut(&mut x2);
